@@ -7,7 +7,8 @@ LEVEL = "model_checking"
 def run(ctx):
   return _shared.run_clauses(ctx, "C01.", lambda e: e['tag'] == 'undo',
                              "every successful bundle is undone (immediately with probability 1/2, otherwise in the final reverse unwinding); non-trivial = distinct (user actions) of undone bundles; clause C01.restore: the document after ApplyUndoActions token-equals the document before the bundle, every table including metadata and formula columns",
-                             corpora=_shared.BOTH)
+                             corpora=_shared.BOTH,
+                             design=("MC_DocActions", "MC_DocActions_quick.cfg" if ctx.quick else "MC_DocActions.cfg"))
 
 
 def replay(ctx, data):
